@@ -7,7 +7,6 @@ RULE = ("op sequences over {add(event in 2, priority in {-1,0,5}, stops?), dispa
         "get_listeners()} followed by a fixed query suffix (has_listeners(None/e), get_listener_priority for every "
         "(event, listener), dispatch and get_listeners per event); exhaustive to the tier's length, seeded random to "
         "length 40; non-trivial = >= 2 registrations and >= 1 dispatch before the suffix; distinct by op sequence")
-THEOREMS = ["dispatch_refines", "spec_order_perm", "spec_order_sorted", "sorted_perm_unique"]
 TRUSTED = ["each registration uses a fresh callable (the same callable registered twice is outside model and generator)"]
 ASSUMPTIONS = ["listeners are distinct callables; priorities are ints"]
 
